@@ -250,6 +250,9 @@ func c51BasicMod() *c51Mod {
 		scen:  [2]int{4, 24},
 		cases: [2]int{600, 1500},
 		must:  []string{"basic_uncovered_passed", "basic_not_judged", "basic_valid_apr1", "basic_valid_sha", "basic_valid_bcrypt"},
+
+		ambig:      c51BasicAmbRun,
+		ambigCases: [2]int{250, 500},
 	}
 }
 
